@@ -195,6 +195,8 @@ func checkC10(c c10Case, o *Obs) error {
 		o.LabelIf(len(m.Ranges) > 0 && m.Ranges[len(m.Ranges)-1][1] == len(r.Seq), "range-at-end")
 		o.LabelIf(m.AmbCount == len(r.Seq), "all-ambiguous")
 		o.LabelIf(len(r.Seq) > 4096, "width>4096")
+		o.LabelIf(len(r.Seq) > 10000, "width>10000")
+		o.LabelIf(m.AmbCount > 10000, "record-with-more-than-10000-ambiguous-columns")
 		for i := 1; i < len(m.Ranges); i++ {
 			o.LabelIf(m.Ranges[i][0]-m.Ranges[i-1][1] == 2, "ranges-one-base-apart")
 		}
@@ -295,7 +297,66 @@ func genUDRef(t *rapid.T, w int) string {
 	return string(b)
 }
 
+// genC10Genome: a genome-sized alignment (the tool's everyday input is 29 903 columns wide) with a few records of the kinds
+// real data has: near-copies of the reference, sequences that are mostly missing data (thousands of N), and a fully
+// ambiguous one. Built from short drawn units so that generation stays cheap; always also run through the binary.
+func genC10Genome(t *rapid.T) c10Case {
+	w := rapid.SampledFrom([]int{10001, 12000, 29903}).Draw(t, "genomeWidth")
+	unit := genACGT(t, 997, "genomeUnit")
+	ref := []byte(strings.Repeat(unit, w/997+1)[:w])
+	for k := rapid.IntRange(0, 3).Draw(t, "nRefAmb"); k > 0; k-- {
+		ref[rapid.IntRange(0, w-1).Draw(t, "refAmbPos")] = rapid.SampledFrom([]byte{'N', 'R', 'Y', '-'}).Draw(t, "refAmbSym")
+	}
+	c := c10Case{Ref: FaRec{ID: "ref", Seq: string(ref)}}
+	n := rapid.IntRange(1, 4).Draw(t, "nrec")
+	for i := 0; i < n; i++ {
+		b := append([]byte(nil), ref...)
+		switch rapid.IntRange(0, 3).Draw(t, "genomeSeqKind") {
+		case 0: // a handful of SNPs
+			for e := rapid.IntRange(0, 5).Draw(t, "edits"); e > 0; e-- {
+				b[rapid.IntRange(0, w-1).Draw(t, "editPos")] = "ACGT"[rapid.IntRange(0, 3).Draw(t, "editBase")]
+			}
+		case 1: // mostly missing: long runs of N / gaps, a few resolved islands
+			sym := rapid.SampledFrom([]byte{'N', 'N', '-', '?', 'n'}).Draw(t, "missingSym")
+			keepFrom := rapid.IntRange(0, w-1).Draw(t, "islandStart")
+			keepLen := rapid.IntRange(0, 3000).Draw(t, "islandLen")
+			for j := range b {
+				if j < keepFrom || j >= keepFrom+keepLen {
+					b[j] = sym
+				}
+			}
+		case 2: // every column ambiguous, unit-periodic
+			u := make([]byte, 53)
+			for j := range u {
+				u[j] = alpha17[4+rapid.IntRange(0, 12).Draw(t, "allAmb")]
+			}
+			for j := range b {
+				b[j] = u[j%53]
+			}
+		default: // SNPs and ambiguity tracts mixed
+			for e := rapid.IntRange(1, 8).Draw(t, "tracts"); e > 0; e-- {
+				p := rapid.IntRange(0, w-1).Draw(t, "tractPos")
+				l := rapid.IntRange(1, 6000).Draw(t, "tractLen")
+				for j := p; j < p+l && j < w; j++ {
+					b[j] = 'N'
+				}
+			}
+			for e := rapid.IntRange(0, 5).Draw(t, "edits"); e > 0; e-- {
+				b[rapid.IntRange(0, w-1).Draw(t, "editPos")] = "ACGT"[rapid.IntRange(0, 3).Draw(t, "editBase")]
+			}
+		}
+		c.Recs = append(c.Recs, FaRec{ID: genID(t, i, "id"), Seq: string(b)})
+	}
+	c.RefLay = Layout{FinalNL: true, Width: rapid.SampledFrom([]int{0, 60, 70}).Draw(t, "refWidth")}
+	c.AlnLay = Layout{FinalNL: true, Width: rapid.SampledFrom([]int{0, 0, 60}).Draw(t, "alnWidth")}
+	c.CLI = true
+	return c
+}
+
 func genC10(t *rapid.T) c10Case {
+	if oneIn(t, "genome", 60) {
+		return genC10Genome(t)
+	}
 	maxW := 40
 	if thorough() {
 		maxW = 200
